@@ -915,6 +915,14 @@ def opSectionGeometry : Op K := fun n a =>
 
 
 
+/-- ints: nx ny ; → rows[12(ny-1)] cols[12(ny-1)] of the declared sparsity of d radius / d mesh (RadiusComp) -/
+def opRadiusPattern : Op K := fun n _ =>
+  let nx := n[0]!; let ny := n[1]!; let m := 12 * (ny - 1)
+  let o := outVec #[] m (fun k => ((Glue.radRow ny k : Nat) : K))
+  outVec o m (fun k => ((Glue.radCol nx ny k : Nat) : K))
+
+
+
 def ops : List (String × Op K) := [
   ("ComputeNodes", opComputeNodes),
   ("LoadTransfer", opLoadTransfer),
@@ -1004,7 +1012,8 @@ def ops : List (String × Op K) := [
   ("FEMResidual", opFEMResidual),
   ("MonotonicPattern", opMonotonicPattern),
   ("FEMPattern", opFEMPattern),
-  ("SectionGeometry", opSectionGeometry)
+  ("SectionGeometry", opSectionGeometry),
+  ("RadiusPattern", opRadiusPattern)
 ]
 
 end OAS.Driver
